@@ -245,13 +245,35 @@ fn bias_decode_pattern(m: BiasMsg, sig_index: usize, sat: u8, pat: u16) -> Resul
     Ok(Some(v as f64))
 }
 fn bias_encode(m: BiasMsg, sig_index: usize, sat: u8, x: f64) -> Result<i64, String> {
-    let msg = bias_message(m, sig_index, sat, x as f32);
+    // the entry under test is the SECOND entry of its satellite: an entry with another signal and a large bias precedes it
+    let mut msg = bias_message(m, sig_index, sat, x as f32);
+    let other = (sig_index + 1) % m.signals().len();
+    let (_, ob, oa) = m.signals()[other];
+    let prev: f32 = if (x as f32).to_bits() % 2 == 0 { 55.55 } else { -37.21 };
+    match &mut msg {
+        Message::Msg1059(t) => {
+            let e = t.biases[0].clone();
+            let mut v = DataVec::new();
+            v.push(Msg1059CodeBias { satellite_id: sat, signal_id: GpsSigId::new(ob, oa), bias_m: prev });
+            v.push(e);
+            t.biases = v;
+        }
+        Message::Msg1065(t) => {
+            let e = t.biases[0].clone();
+            let mut v = DataVec::new();
+            v.push(Msg1065CodeBias { satellite_id: sat, signal_id: GloSigId::new(ob, oa), bias_m: prev });
+            v.push(e);
+            t.biases = v;
+        }
+        _ => {}
+    }
+    let two = !matches!(m, BiasMsg::M1230);
     let mut b = MessageBuilder::new();
     let f = b.build_message(&msg).map_err(|e| format!("{:?}", e))?;
     let w = m.bias_bits();
     let off = match m {
         BiasMsg::M1230 => m.header_bits() + 4,
-        _ => m.header_bits() + 6 + m.sat_bits() + 5 + 5,
+        _ => m.header_bits() + 6 + m.sat_bits() + 5 + 5 + if two { 14 + 5 } else { 0 },
     };
     let p = get_bits(&f[3..], off, w).ok_or_else(|| "frame too short".to_string())?;
     Ok(index_of(Kind::I, w as u32, p))
@@ -281,8 +303,8 @@ fn codec_by_name(name: &str) -> Option<Codec<'static>> {
 pub fn run(ctx: &Ctx, replay: Option<&J>) -> CheckResult {
     let nfloat = FIELDS.iter().filter(|f| f.is_float).count();
     let rule = format!(
-        "every float-typed df! field ({} fields) and the three bias codecs (through one-entry messages) x grid index k (both range ends, around zero, powers of two, \
-         seeded random) x t in {{1e-9,1e-6,.1,.25,.49,.499999,.5,.500001,.51,.75,.9,.999999,1-1e-9}} + 3 random t; input x = g(k)+t*(g(k+1)-g(k)) rounded to the field's \
+        "every float-typed df! field ({} fields) and the three bias codecs (through messages; for 1059/1065 the entry under test follows another entry of the same satellite) x grid index k (both range ends, around zero, powers of two, \
+         seeded random) x t in {{1e-9,1e-6,.1,.25,.49,.499999,.5,.500001,.51,.75,.9,.999999,1-1e-9}} + 3 random t + the grid points themselves (t=0, t=1); input x = g(k)+t*(g(k+1)-g(k)) rounded to the field's \
          float type, g = the decoder applied to consecutive patterns (intervals touching the 'absent' marker skipped). oracle: encode(x) is k or k+1, \
          |g(encode(x))-x| <= step/2 + 16u(max|g|,|x| + step) with u=2^-24/2^-53, indexes non-decreasing in x. non-trivial = input strictly between two grid points; \
          distinct = (field,k,t)",
@@ -335,6 +357,9 @@ pub fn run(ctx: &Ctx, replay: Option<&J>) -> CheckResult {
                 for _ in 0..3 {
                     ts.push(rng.f64_unit());
                 }
+                // exact grid points (in particular exactly zero) as inputs too
+                ts.push(0.0);
+                ts.push(1.0);
                 ts.sort_by(|a, b| a.partial_cmp(b).unwrap());
                 ev.evaluations += ts.len() as u64;
                 let r = catch(|| interval(&codec, k, &ts));
